@@ -2,6 +2,8 @@ import CpModel.Proto
 import CpModel.Ranges
 import CpModel.Validators
 import CpModel.CondFlow
+import CpModel.CondElements
+import CpModel.HttpDate
 /-!
   Driver for C16.  One case per line.
 
@@ -11,19 +13,24 @@ import CpModel.CondFlow
 
     E <hdr>                             elementsSimple(hdr)  -> texts joined by '/'   ([] when empty)
 
+    F <hdr>                             elementsFull(hdr) = [str(x) for x in header_elements('If-Match', hdr)],
+                                        in the order of the real list  -> texts joined by '/'   ([] when empty)
+
+    D <t>                               httpDate(t) = httputil.HTTPDate(t), integer seconds  -> text
+
     Q kind method proto known base callSince etagsOn autotags hEtag autoTag lastmod im inm ims ius range content boundary ctype stream script emptyTag
         (answered by `CondFlow.respondX`; `callSince` only feeds the legacy field of `Req`)
         stream = 0|1 (response.stream)   script = - | letters B (set body) S (validate_since) E (validate_etags())
         A (validate_etags(autotags=True)): what a `gen` handler does, in order   emptyTag = text ('"md5(b'')"')
         kind = file|gen   method = GET|HEAD|…   proto = 10|11   known = 0|1 (entity length known)   base = status   flags = 0|1
         hEtag, lastmod, ims, ius, range = N | text;  autoTag = text
-        im, inm = [] | text/text/…
+        im, inm = N | text: the raw If-Match / If-None-Match header values; the driver runs `elementsFull` on them
         content = x<hex> | f<len>.<a>.<b>   (byte i = (a*i+b) % 251)
         boundary = N | text (the boundary the real response chose), ctype = text: when the body is
         multipart the exact body bytes are rendered and `:m<len>:<adler32>` is appended to body=
         -> s=<status> cr=<N|*/t|a-b/t> cl=<N|n> etag=<N|text> body=<empty|err|b:<len>:<adler32>|p:a-b/t:<len>:<adler32>;…>
 -/
-open CpModel CpModel.Ranges CpModel.Validators CpModel.CondFlow
+open CpModel CpModel.Ranges CpModel.Validators CpModel.CondFlow CpModel.CondElements
 
 namespace Drv.C16
 
@@ -111,8 +118,8 @@ def parseQ : List String → Option (ReqX × Option Text × Text)
       handlerEtag := ← optText? hEtag
       autoTag := ← Proto.untext? autoTag
       lastmod := ← optText? lastmod
-      im := ← textList? im
-      inm := ← textList? inm
+      im := elementsFull (← optText? im)
+      inm := elementsFull (← optText? inm)
       ims := ← optText? ims
       ius := ← optText? ius
       range := ← optText? range
@@ -128,6 +135,14 @@ def step (line : String) : String :=
   | ["E", hdr] =>
     match optText? hdr with
     | some h => showTextList (elementsSimple h)
+    | none => "bad-op"
+  | ["F", hdr] =>
+    match optText? hdr with
+    | some h => showTextList (elementsFull h)
+    | none => "bad-op"
+  | ["D", t] =>
+    match t.toNat? with
+    | some n => Proto.text (HttpDate.httpDate n)
     | none => "bad-op"
   | "Q" :: rest =>
     match parseQ rest with
